@@ -122,7 +122,9 @@ pub fn stream_case(c: &Collector, cols: u32, lines: u32, chunks: &[Vec<u8>], utf
             format!("{}x{} screen, bytes {}: {}", cols, lines, chunks.iter().map(|x| hex(x)).collect::<Vec<_>>().join(" | "), m),
         )),
         Ok((ok_rows, cell, wf, key)) => {
-            outcomes.insert(key);
+            if outcomes.len() < 1_000_000 {
+                outcomes.insert(key);
+            }
             if !ok_rows {
                 c.violation(mk(format!("stream|display-rows|{}", shape), "display() did not return `lines` rows".into()));
             }
@@ -196,7 +198,9 @@ pub fn char_case(c: &Collector, cols: u32, lines: u32, chunks: &[String], utf8: 
             format!("{}x{} screen, input {}: {}", cols, lines, chunks.iter().map(|x| esc(x)).collect::<Vec<_>>().join(" | "), m),
         )),
         Ok((cell, wf, key)) => {
-            outcomes.insert(key);
+            if outcomes.len() < 1_000_000 {
+                outcomes.insert(key);
+            }
             if !wf.is_empty() {
                 c.violation(mk(format!("chars|illformed|{}", shape), wf.join("; ")));
             }
